@@ -132,7 +132,54 @@ def _from_residual(m, a, c):
     v = a[0]
     if isinstance(v, Term):
         return Term("from_residual", v)
-    return v  # error conversion (From) is identity for our purposes
+    # `?` converts the error with From<E> for F when the function's error type differs from the operand's: apply the
+    # crate's own From impl (type-directed: picked from the two Result types the call is instantiated with)
+    d = deref(v)
+    targs = c.get("targs") or []
+    if is_res(d, "Err") and len(targs) == 2 and not isinstance(d.fields["0"], Term):
+        conv = _residual_conversion(m, targs[0], targs[1])
+        if conv is not None:
+            return err(m.call_path(conv, [d.fields["0"]]))
+    return v  # identical error types, or a foreign conversion (modelled as identity)
+
+
+_CONV_CACHE = {}
+
+
+def _residual_conversion(m, target, residual):
+    from .tystr import split_type, type_head
+    key = (target, residual)
+    if key in _CONV_CACHE:
+        return _CONV_CACHE[key]
+    out = None
+    th, ta = split_type(target)
+    rh, ra = split_type(residual)
+    if th.endswith("result::Result") and rh.endswith("result::Result") and len(ta) == 2 and len(ra) == 2 and ta[1] != ra[1]:
+        fty, ety = ta[1], ra[1]
+        concrete, generic = [], []
+        for imp in m.facts.impls:
+            if imp.get("trait") != "std::convert::From" or type_head(imp.get("self_ty") or "") != type_head(fty):
+                continue
+            ts = imp.get("trait_str") or ""
+            k = ts.rfind("std::convert::From<")
+            if k < 0:
+                continue
+            src = ts[k + len("std::convert::From<"):].rstrip(">")
+            # re-balance: the trait_str ends with `>>`: one for From<..>, one for the `<.. as ..>` wrapper
+            src = ts[k + len("std::convert::From<"):-2]
+            froms = [it["path"] for it in imp["items"] if it["name"] == "from" and it["path"] in m.facts.bodies]
+            if not froms:
+                continue
+            if "::" not in src and "<" not in src and src[:1].isupper() and len(src) <= 3:
+                generic.append(froms[0])
+            elif type_head(src) == type_head(ety):
+                concrete.append(froms[0])
+        if len(concrete) == 1:
+            out = concrete[0]
+        elif not concrete and len(generic) == 1:
+            out = generic[0]
+    _CONV_CACHE[key] = out
+    return out
 
 
 # ---- Option --------------------------------------------------------------
